@@ -16,6 +16,7 @@ func GenCfg(t *rapid.T) Cfg {
 		Mode:      rapid.SampledFrom([]uint32{0, 0o640, 0o600}).Draw(t, "mode"),
 		FileName:  rapid.SampledFrom([]string{"ev.log", "ev", "audit.json", "a.b.c", "audit.log.log", "a.b.b", ".hidden", "x.tar.gz"}).Draw(t, "fileName"),
 		Custom:    rapid.IntRange(0, 3).Draw(t, "custom") == 0,
+		FmtKind:   rapid.IntRange(0, 4).Draw(t, "customFormatName"),
 		NestedDir: rapid.Bool().Draw(t, "nested"),
 	}
 }
